@@ -226,7 +226,7 @@ Section F.
   Proof.
     induction 1 as [|[k [i c]] ms Hc Hms IH]; intros r E; simpl in E.
     - inversion E; subst. split; [reflexivity|intros m []].
-    - destruct c as [p|v|?|? ? ? ? ?|? ? ?|?]; simpl in Hc; try discriminate.
+    - destruct c as [p|v|?|? ? ? ? ?|? ? ?|? ? ?|?]; simpl in Hc; try discriminate.
       + destruct (vals p) as [v|] eqn:Ev; [|discriminate].
         destruct (fix_members V vals ms) as [r0|] eqn:Er; [|discriminate]. inversion E; subst.
         destruct (IH r0 eq_refl) as [A B]. split.
@@ -249,7 +249,7 @@ Section F.
   Theorem fixed_instance : forall n, wf V n -> forall n', fix_tree V bin un vals n = Some n' ->
     walk V n' = [] /\ forall args', inst V bin un args' n' = inst V bin un vals n.
   Proof.
-    induction n as [p|v|ms _|o ln rn l r IHl IHr|cls ctor attrs IH|attrs IH] using node_ind'; intros W n' E.
+    induction n as [p|v|ms _|o ln rn l r IHl IHr|uo unm uc IHc|cls ctor attrs IH|attrs IH] using node_ind'; intros W n' E.
     - simpl in E. destruct (vals p) as [v|] eqn:Ev; [|discriminate]. inversion E; subst.
       split; [reflexivity|]. intro args'. cbn [inst]. rewrite Ev. reflexivity.
     - inversion E; subst. split; reflexivity.
@@ -261,6 +261,8 @@ Section F.
       + intro args'. apply inst_tuple_eq; [exact Wn|].
         rewrite <- (proj1 (fix_members_vals args' ms Wl r Er)). apply Permutation_map. apply sort_by_perm.
     - cbn [fix_tree] in E. destruct (inst V bin un vals (NBin o ln rn l r)) as [v| | | |] eqn:Ei; try discriminate.
+      inversion E; subst. split; reflexivity.
+    - cbn [fix_tree] in E. destruct (inst V bin un vals (NUn uo unm uc)) as [v| | | |] eqn:Ei; try discriminate.
       inversion E; subst. split; reflexivity.
     - rewrite fix_model in E. destruct (fix_attrs attrs) as [a'|] eqn:Ea; [|discriminate]. inversion E; subst.
       apply wf_model in W.
